@@ -254,11 +254,11 @@ def shards(tier):
         for keepalive in (0, 5):
             for how in ('disconnect', 'abort'):
                 for first in CLOSING_STEPS:
-                    out.append(('closing', {'profile': profile, 'keepalive': keepalive, 'how': how, 'k': (4 if T else 3) if how == 'disconnect' else (3 if T else 2),
+                    out.append(('closing', {'profile': profile, 'keepalive': keepalive, 'how': how, 'k': 3 if how == 'disconnect' else 2,
                                             'k2': 2 if T else 1, 'first': first}))
         for ver in (31, 311):
             for first in GEN_STEPS:
-                out.append(('general', {'profile': profile, 'ver': ver, 'keepalive': 5 if ver == 31 else 0, 'k': 4 if T else 3, 'first': first,
+                out.append(('general', {'profile': profile, 'ver': ver, 'keepalive': 5 if ver == 31 else 0, 'k': 4 if (T and profile == 'pubsubs') else 3, 'first': first,
                                         'before': ver == 311, 'stray_will_args': first in ('advance', 'disconnect')}))
     for profile in ('publisher', 'pubsubs'):
         for ver in (31, 311):
@@ -270,7 +270,7 @@ META = {
     'rule': '(closing) connected client with one request of every kind pending, then disconnect() or an abort-provoking packet, k free steps from {publish(QoS symbolic), '
             'subscribe, unsubscribe, connect, disconnect, advance(dt symbolic)} before the loss is reported, the loss, k2 steps after it, 2000 s; (general) histories of k '
             'steps over requests, acknowledgements, inbound traffic, time, disconnect, loss + new connection; every transport stream is parsed by the strict reference decoder',
-    'bounds': {'quick': 'resume: persistent session, window 1, one QoS 2 publish in flight and 2 publishes of symbolic QoS queued, 1 step, loss, rebuilt protocol (optional setWindowSize), CONNACK, 40 s; closing: one more publish held back by a full window, steps include setWindowSize(symbolic); k=3 after disconnect(), k=2 after an abort, k2=1, keepalive 0/5, 3 profiles; general: k=3, both protocol versions', 'thorough': 'closing: k=4, k2=2; general: k=4'},
+    'bounds': {'quick': 'resume: persistent session, window 1, one QoS 2 publish in flight and 2 publishes of symbolic QoS queued, 1 step, loss, rebuilt protocol (optional setWindowSize), CONNACK, 40 s; closing: one more publish held back by a full window, steps include setWindowSize(symbolic); k=3 after disconnect(), k=2 after an abort, k2=1, keepalive 0/5, 3 profiles; general: k=3, both protocol versions', 'thorough': 'closing: k2=2; general: k=4 for pubsubs; resume: 2 steps'},
     'stubs': ['fake transport with asynchronous loss', 'twisted task.Clock', 'jitter: fixed sequence'],
     'outside': ['connect() called on a protocol object after its connection was reported lost (a Twisted protocol instance serves one connection)',
                 'writes between abortConnection() and the loss report (the statement restricts only what follows DISCONNECT and what follows the loss)'],
